@@ -1,28 +1,93 @@
 (* C01 -- Error text and cause-tree structure survive network transfer.
-   Statements only; proofs in Proofs/CodecFacts.v.
-   Proved so far: the wire message has the shape of the visible cause tree; a
-   process that knows none of the types re-emits its input verbatim (no drift
-   through unknowing processes).  The statement for knowing processes
-   (C01_shape_text, C01_no_drift in DESIGN.md) is decided on every run by the
-   correspondence stream and the Go-side relation; its proof is work in progress
-   and listed as missing in the evidence. *)
+   Statements only; proofs in Proofs/CodecFacts.v, HopIdem.v, ExactHop.v, EraseFacts.v.
+
+   [erase] forgets object identities (a decoded error is a new object) and the
+   cached form of redacted context tags; Proofs/EraseFacts.v shows that the
+   Error() text, every rendering, the safe details and the wire encoding of an
+   error depend only on its erasure.  So "erase a = erase b" below means: a and b
+   have the same visible tree with the same text at every node, and more.
+
+   What is proved:
+   - C01_exact_first_hop: for every error made of kinds the registered decoders
+     rebuild (all library layers except the stack-trace layer, stdlib leaves, OS
+     error wrappers ...), ONE hop between knowing processes gives the same error,
+     whatever the strings (any bytes) and the depth.
+   - C01_stable_from_second_hop: for EVERY error (stack layers, foreign and user
+     types, multi-cause ...), every process (any knowledge), from the second hop on
+     nothing changes any more; C01_no_drift: the wire message is a fixpoint.
+   - C01_first_hop_stable: under a side condition that only excludes errno values
+     forwarded from another platform, already from the first hop on.
+   - C01_wire_shape / C01_no_drift_unknowing as before.
+   Not proved: the first hop keeps the text for the kinds that decode to the
+   opaque stand-ins (stack layer, pkg/errors, fmt.Errorf, user types): this needs
+   the engine theorem "%v = Error()" for the cause (C09) and the faithfulness of
+   extractPrefix; it is decided on every run by the correspondence stream (text
+   tree of model and implementation, hops 1..4) -- listed as missing in the evidence. *)
 From Errv Require Import Base.Str Model.Err Model.Sem Model.Details Model.Marks Model.Codec
-     Proofs.CodecFacts.
+     Proofs.CodecFacts Proofs.EraseDef Proofs.EraseFacts Proofs.HopIdem Proofs.ExactHop.
 
 Theorem C01_wire_shape : forall e, enc_shape (encode e) = err_shape e.
 Proof. exact encode_shape. Qed.
 Print Assumptions C01_wire_shape.
+
+Theorem C01_exact_first_hop : forall e n,
+  exact_tree e = true ->
+  erase (fst (hop all_knowing e n)) = erase e /\
+  error_text (fst (hop all_knowing e n)) = error_text e /\
+  err_shape (fst (hop all_knowing e n)) = err_shape e /\
+  encode (fst (hop all_knowing e n)) = encode e.
+Proof.
+  intros e n H. split; [exact (exact_hop e H n)|]. split; [now apply exact_hop_text|].
+  split; [now apply exact_hop_shape | now apply exact_hop_encode].
+Qed.
+Print Assumptions C01_exact_first_hop.
+
+Theorem C01_exact_k_hops : forall e k n,
+  exact_tree e = true -> erase (fst (transfer (List.repeat all_knowing k) e n)) = erase e.
+Proof. exact exact_transfer. Qed.
+Print Assumptions C01_exact_k_hops.
+
+(* every error, every process whose knowledge is closed under the one rename the
+   decoders perform (previous barrier type -> barrier type) *)
+Theorem C01_stable_from_second_hop : forall p, proc_closed p -> forall e n n' n'',
+  erase (fst (hop p (fst (hop p (fst (hop p e n)) n')) n'')) = erase (fst (hop p (fst (hop p e n)) n')).
+Proof. exact hop_stable. Qed.
+Print Assumptions C01_stable_from_second_hop.
+
+Theorem C01_first_hop_stable : forall p, proc_closed p -> forall e n n',
+  errno_ok p (encode e) = true ->
+  erase (fst (hop p (fst (hop p e n)) n')) = erase (fst (hop p e n)).
+Proof. exact hop_stable_first. Qed.
+Print Assumptions C01_first_hop_stable.
+
+(* no drift: re-encoding reproduces the same wire message *)
+Theorem C01_no_drift : forall p, proc_closed p -> forall e n n' n'',
+  encode (fst (hop p (fst (hop p (fst (hop p e n)) n')) n'')) = encode (fst (hop p (fst (hop p e n)) n')).
+Proof. intros p Hp e n n' n''. apply same_erase_encode. now apply hop_stable. Qed.
+Print Assumptions C01_no_drift.
+
+Theorem C01_no_drift_first : forall p, proc_closed p -> forall e n n',
+  errno_ok p (encode e) = true ->
+  encode (fst (hop p (fst (hop p e n)) n')) = encode (fst (hop p e n)) /\
+  error_text (fst (hop p (fst (hop p e n)) n')) = error_text (fst (hop p e n)).
+Proof.
+  intros p Hp e n n' H. pose proof (hop_stable_first p Hp e n n' H) as E.
+  split; [now apply same_erase_encode|]. unfold error_text. now rewrite (same_erase_sem _ _ E).
+Qed.
+Print Assumptions C01_no_drift_first.
 
 Theorem C01_no_drift_unknowing : forall p, knows_nothing p -> forall x,
   no_error_payload x = true -> forall n, encode (fst (decode p x n)) = x.
 Proof. exact reencode_exact. Qed.
 Print Assumptions C01_no_drift_unknowing.
 
-Theorem C01_opaque_reencode : forall i msg d cs pfx mt c,
-  encode (OLeaf i msg d cs) = ELeaf msg d (List.map encode cs) /\
-  encode (OWrap i pfx d mt c) = EWrap (encode c) pfx d mt.
-Proof. intros. split; reflexivity. Qed.
-Print Assumptions C01_opaque_reencode.
+(* the side condition of the first-hop theorems is needed: an errno from another platform settles one hop later *)
+Theorem C01_first_hop_condition_needed :
+  proc_closed all_knowing /\
+  erase (fst (decode all_knowing (encode (fst (decode all_knowing foreign_errno_msg 100%positive))) 200%positive))
+  <> erase (fst (decode all_knowing foreign_errno_msg 100%positive)).
+Proof. exact hop_idem_needs_errno_ok. Qed.
+Print Assumptions C01_first_hop_condition_needed.
 
 Example C01_example :
   let e := Wrap 102%positive (WPrefix (lit "outer")) (Wrap 101%positive (WUser UWUnwrap (lit "mid: dle") [])
@@ -30,5 +95,7 @@ Example C01_example :
   let e1 := fst (hop all_knowing e 1000%positive) in
   let e2 := fst (hop all_knowing e1 2000%positive) in
   error_text e1 = error_text e /\ error_text e = lit "outer: mid: dle: x: y" /\
-  encode e2 = encode e1 /\ err_shape e1 = err_shape e.
+  encode e2 = encode e1 /\ err_shape e1 = err_shape e /\
+  exact_tree (Wrap 103%positive (WHint (lit "h")) (Wrap 102%positive (WPrefix (lit "p")) (Leaf 100%positive (LErrno 13%Z)))) = true /\
+  proc_closed all_knowing.
 Proof. vm_compute. repeat split. Qed.
